@@ -283,3 +283,128 @@ Proof.
     congruence. }
   rewrite Hl. reflexivity.
 Qed.
+
+(* ---- the repaired padding (pad_with) ---- *)
+Definition hit (i fm : str) (ps : list (str * list str)) : bool := existsb (fun p => seqb (fst p) i && mem fm (snd p)) ps.
+Lemma hit_app i fm a b : hit i fm (a ++ b) = hit i fm a || hit i fm b.
+Proof. unfold hit. apply existsb_app. Qed.
+Lemma add_ids_keeps extra : forall ps i fm, hit i fm ps = true -> hit i fm (add_ids extra ps) = true.
+Proof.
+  unfold add_ids. induction extra as [|x extra IH]; intros ps i fm H; [exact H|]. cbn [fold_left]. apply IH.
+  destruct (fget x ps); [exact H|]. rewrite hit_app, H. reflexivity.
+Qed.
+Lemma fget_app_none {V} k (a b : list (str * V)) : fget k a = None -> fget k (a ++ b) = fget k b.
+Proof. induction a as [|[k' v] a IH]; intro H; [reflexivity|]. cbn [app fget] in *. destruct (seqb k' k); [discriminate|apply IH; exact H]. Qed.
+Lemma fget_app_some {V} k (a b : list (str * V)) v : fget k a = Some v -> fget k (a ++ b) = Some v.
+Proof. induction a as [|[k' w] a IH]; intro H; [discriminate|]. cbn [app fget] in *. destruct (seqb k' k); [exact H|apply IH; exact H]. Qed.
+(* an id of `extra` that was not known gets the form "long"; one that was known keeps what it had *)
+Lemma add_ids_new extra : forall ps id, In id extra -> fget id ps = None -> hit id s_long (add_ids extra ps) = true.
+Proof.
+  unfold add_ids. induction extra as [|x extra IH]; intros ps id Hin Hn; [destruct Hin|]. cbn [fold_left].
+  destruct (seqb_spec x id) as [->|Hne].
+  - rewrite Hn. apply (add_ids_keeps extra). rewrite hit_app. unfold hit at 2. cbn [existsb fst snd]. rewrite seqb_refl. unfold mem. cbn [existsb]. rewrite seqb_refl. cbn. apply orb_true_r.
+  - destruct Hin as [E|Hin]; [congruence|]. destruct (fget x ps) eqn:Ex; [apply IH; assumption|].
+    apply IH; [exact Hin|]. rewrite fget_app_none by exact Hn. cbn [fget]. destruct (seqb_spec x id); [congruence|reflexivity].
+Qed.
+
+Theorem pad_with_lookup (extra : list str) (s : store) (l i fm : str) li : fget l s = Some li ->
+  lookup (pad_with extra s) l i fm =
+  match lookup s l i fm with Some t => Some t | None => if hit i fm (add_ids extra (all_paths_forms s)) then Some DASH else None end.
+Proof.
+  intro Hl. unfold lookup, pad_with. rewrite fget_map_pad, Hl. cbn [option_map].
+  pose proof (pad_lang_spec i fm (add_ids extra (all_paths_forms s)) li) as H. unfold LK in H. rewrite H. reflexivity.
+Qed.
+
+(* where the keys of the union come from *)
+Lemma mem_in x l : mem x l = true <-> In x l.
+Proof. unfold mem. rewrite existsb_exists. split; [intros [y [Hy E]]; apply seqb_eq in E; subst; exact Hy|intro H; exists x; split; [exact H|apply seqb_refl]]. Qed.
+Lemma keys_fset_in {V} k (v : V) d i : In i (map fst (fset k v d)) <-> In i (map fst d) \/ i = k.
+Proof.
+  rewrite keys_fset. destruct (mem k (map fst d)) eqn:E.
+  - apply mem_in in E. split.
+    + intro H. left. exact H.
+    + intros [H|H]; [exact H|subst; exact E].
+  - rewrite in_app_iff. cbn [In]. split.
+    + intros [H|[H|H]]; [left; exact H|right; symmetry; exact H|destruct H].
+    + intros [H|H]; [left; exact H|right; left; symmetry; exact H].
+Qed.
+Lemma keys_union li : forall acc i, In i (map fst (union_forms acc li)) <-> In i (map fst acc) \/ In i (map fst li).
+Proof.
+  unfold union_forms. induction li as [|[i0 fi0] li IH]; intros acc i; cbn [fold_left map fst In]; [tauto|].
+  rewrite IH, keys_fset_in. cbn [fst]. split.
+  - intros [[H|H]|H]; [left; exact H|right; left; symmetry; exact H|right; right; exact H].
+  - intros [H|[H|H]]; [left; left; exact H|left; right; symmetry; exact H|right; exact H].
+Qed.
+Lemma keys_all (s : store) : forall (acc : list (str * list str)) (i : str), In i (map fst (fold_left (fun a pl => union_forms a (snd pl)) s acc)) <->
+  In i (map fst acc) \/ exists (l : str) (li : ids), In (l, li) s /\ In i (map fst li).
+Proof.
+  induction s as [|[l li] s IH]; intros acc i; cbn [fold_left].
+  - split; [intro H; left; exact H|intros [H|[l [li [[] _]]]]; exact H].
+  - rewrite IH, keys_union. cbn [snd]. split.
+    + intros [[H|H]|[l' [li' [Hin Hk]]]]; [left; exact H|right; exists l, li; split; [left; reflexivity|exact H]|right; exists l', li'; split; [right; exact Hin|exact Hk]].
+    + intros [H|[l' [li' [[E|Hin] Hk]]]]; [left; left; exact H|inversion E; subst; left; right; exact Hk|right; exists l', li'; split; assumption].
+Qed.
+Lemma fget_some_in {V} k (d : list (str * V)) v : fget k d = Some v -> In k (map fst d).
+Proof. induction d as [|[a w] d IH]; intro H; [discriminate|]. cbn [fget map fst In] in *. destruct (seqb_spec a k) as [->|Hne]; [left; reflexivity|right; apply IH; exact H]. Qed.
+
+(* every id entry of every language has at least one form: true of every store built from facts *)
+Definition store_ok (s : store) : Prop := forall l li i fi, In (l, li) s -> In (i, fi) li -> fi <> [].
+Lemma known_id_has_form s i : store_ok s -> In i (map fst (all_paths_forms s)) -> exists fm, has_form s i fm = true.
+Proof.
+  intros Hok Hin. unfold all_paths_forms in Hin. apply keys_all in Hin as [[]|[l [li [Hs Hk]]]].
+  apply in_map_iff in Hk as [[i' fi] [E Hli]]. cbn [fst] in E. subst i'.
+  pose proof (Hok l li i fi Hs Hli) as Hne. destruct fi as [|[fm t] fi']; [congruence|]. exists fm.
+  unfold has_form. apply existsb_exists. exists (l, li). split; [exact Hs|]. cbn [snd]. apply existsb_exists. exists (i, (fm, t) :: fi'). split; [exact Hli|].
+  cbn [fst snd map]. rewrite seqb_refl. unfold mem. cbn [existsb]. rewrite seqb_refl. reflexivity.
+Qed.
+
+(* THE statement for choices after the repair: every id handed to the padding has an entry in every language *)
+Theorem padded_ids_closed (extra : list str) (s : store) l id : store_ok s -> In l (langs s) -> In id extra ->
+  exists fm, lookup (pad_with extra s) l id fm <> None.
+Proof.
+  intros Hok Hl Hin. destruct (fget_lang s l Hl) as [li Hli].
+  destruct (fget id (all_paths_forms s)) as [fms|] eqn:E.
+  - destruct (known_id_has_form s id Hok (fget_some_in _ _ _ E)) as [fm Hfm]. exists fm. rewrite (pad_with_lookup extra s l id fm li Hli).
+    destruct (lookup s l id fm); [discriminate|].
+    assert (H : hit id fm (all_paths_forms s) = true). { unfold hit. rewrite (E_is_G _ id fm (NoDup_all_paths s)), all_paths_forms_spec. exact Hfm. }
+    rewrite (add_ids_keeps extra _ _ _ H). discriminate.
+  - exists s_long. rewrite (pad_with_lookup extra s l id s_long li Hli). destruct (lookup s l id s_long); [discriminate|].
+    rewrite (add_ids_new extra _ id Hin E). discriminate.
+Qed.
+Lemma in_fset {V} k (v : V) d k' v' : In (k', v') (fset k v d) -> (k' = k /\ v' = v) \/ In (k', v') d.
+Proof.
+  induction d as [|[a w] d IH]; cbn [fset]; intro H.
+  - destruct H as [E|[]]. inversion E; subst. left; split; reflexivity.
+  - destruct (seqb_spec a k) as [->|Hne]; destruct H as [E|H].
+    + inversion E; subst. left; split; reflexivity.
+    + right. right. exact H.
+    + right. left. exact E.
+    + destruct (IH H) as [Hl|Hr]; [left; exact Hl|right; right; exact Hr].
+Qed.
+Lemma fset_nonempty {V} k (v : V) d : fset k v d <> [].
+Proof. destruct d as [|[a w] d]; cbn [fset]; [discriminate|]. destruct (seqb a k); discriminate. Qed.
+Lemma store_ok_add s f : store_ok s -> store_ok (add_fact s f).
+Proof.
+  intros Hok. destruct f as [[[l i] fm] t]. unfold add_fact, store_ok. intros l' li' i' fi' Hs Hi.
+  apply in_fset in Hs as [[-> ->]|Hs].
+  - apply in_fset in Hi as [[-> ->]|Hi]; [apply fset_nonempty|].
+    destruct (fget l s) as [li|] eqn:El; [|destruct Hi]. apply (Hok l li i' fi' (fget_in _ _ _ El) Hi).
+  - apply (Hok l' li' i' fi' Hs Hi).
+Qed.
+Lemma store_ok_build fs : store_ok (build fs).
+Proof.
+  unfold build. assert (H : forall s, store_ok s -> store_ok (fold_left add_fact fs s)).
+  { induction fs as [|f fs IH]; intros s Hs; [exact Hs|]. cbn [fold_left]. apply IH. apply store_ok_add. exact Hs. }
+  apply H. intros l li i fi [].
+Qed.
+(* for a choice list: after the repair every item id emitted for a list that needs itext has an entry in every language *)
+Theorem choice_item_ids_closed dl list_name (cs : list choice) (other : list fact) l id :
+  let s := build (other ++ list_facts dl list_name 0 cs) in
+  In l (langs s) -> In id (emitted_item_ids list_name cs) ->
+  exists fm, lookup (pad_with (emitted_item_ids list_name cs) s) l id fm <> None.
+Proof. intros s Hl Hid. apply padded_ids_closed; [apply store_ok_build|exact Hl|exact Hid]. Qed.
+
+(* tie to the source (Gen/Itext.v is regenerated from /repo on every run; the text of _add_empty_translations is pinned by the translator) *)
+Require Import PX.Gen.Itext.
+Lemma placeholder_pinned : ITEXT_PLACEHOLDER = DASH.
+Proof. reflexivity. Qed.
